@@ -1,0 +1,41 @@
+// Copyright ©2026 The Gonum Authors. All rights reserved.
+// Use of this source code is governed by a BSD-style
+// license that can be found in the LICENSE file.
+
+//go:build verif
+
+package combin
+
+// Machine-checked contracts for the Cartesian index maps of this package
+// (verification hook, build tag verif; this file contains comments only).
+// The contract language and the checker are described in /verif/DESIGN.md.
+//
+// tp(d, i, n) is the product d[i]*...*d[n-1] (the stride of dimension i-1 in
+// row-major order), plin(s, d, i, n) the row-major linear index contributed by
+// the first i subscripts. IdxFor returns plin(sub, dims, n, n); SubFor writes
+// subscripts with plin(sub, dims, n, n) == idx, each inside its dimension: the
+// two maps are mutually inverse on the index range.
+
+//@ spec rec tp(d []int, i int, n int) int decreases n - i = ite(i >= n, 1, d[i] * tp(d, i+1, n))
+//@ spec rec plin(s []int, d []int, i int, n int) int reads s[0..i] decreases i = ite(i <= 0, 0, plin(s, d, i-1, n) + s[i-1]*tp(d, i, n))
+//@ spec posdims(d []int) bool = forall(k, 0, len(d), d[k] > 0)
+
+//@ func IdxFor props: C20
+//@ requires len(sub) >= len(dims)
+//@ option may-panic
+//@ ensures result == plin(sub, dims, len(dims), len(dims))
+//@ loop 1: invariant stride == tp(dims, i+1, len(dims))
+//@ invariant idx == plin(sub, dims, len(dims), len(dims)) - plin(sub, dims, i+1, len(dims))
+//@ invariant -1 <= i && i < len(dims)
+
+//@ func SubFor props: C20
+//@ requires sub == nil || sub.rid != dims.rid
+//@ requires len(dims) >= 1 && posdims(dims)
+//@ option may-panic
+//@ ensures len(result) == len(dims)
+//@ ensures forall(k, 0, len(dims), 0 <= result[k] && result[k] < dims[k])
+//@ ensures plin(result, dims, len(dims), len(dims)) == idx
+//@ loop 1: invariant stride == tp(dims, i+1, len(dims)) && 0 <= i && i < len(dims) && stride > 0
+//@ loop 2: invariant stride == tp(dims, i+1, len(dims)) && 0 <= i && i < len(dims) && stride > 0
+//@ invariant old(idx) == plin(sub, dims, i, len(dims)) + idx && 0 <= idx
+//@ invariant forall(k, 0, i, 0 <= sub[k] && sub[k] < dims[k])
